@@ -485,7 +485,7 @@ def shard_main(shard, nshards, tier, scale):
         if shard == 0:
             rec.extra["concurrent_preemption_functions"] = len(info)
         cstrat = st.tuples(message_and_paths(D, codes), st.integers(0, 1 << 30), st.sampled_from([0.02, 0.08, 0.3]))
-        hyp.run_given(cstrat, lambda t: check_concurrent_searches(D, t, rec), int((6000 if thorough else 400) * scale) or 5,
+        hyp.run_given(cstrat, lambda t: check_concurrent_searches(D, t, rec), int((1500 if thorough else 400) * scale) or 5,
                       derive_seed(PID, "concurrent", shard), rec=rec)
         from dv import sched as _sched
         _sched.clear()
